@@ -368,6 +368,25 @@ VRsp(g, L) ==
             \cup V(NoEffect(g, L), "C04:request for a SEID that addresses no live session had a side effect")
        [] OTHER -> {}
 
+\* ------------------------------------------------------------------ C02 / C03 at the PFCP level: IEs are handed on
+\* An accepted request's Create IE, and its Update IE for a rule the data plane holds for that session (and that the same
+\* request does not remove), must reach the data plane as a call for that session and rule - whatever happened to earlier
+\* calls. (Content is judged by RuleXlate at the driver; here: that the IE is not swallowed by the session bookkeeping.)
+VForward(g, L) ==
+  LET e == L.e
+      sd == TargetSeid(g, L)
+      rs == MyRsps(L)
+      ok == sd # "" /\ ~IsDup(g, e) /\ Len(rs) = 1 /\ rs[1].cause = CAUSE_OK
+      have(k, i) == <<sd, k, i>> \in (g.dp \cup CreatedOk(L.calls))
+      called(op, k, i) == \E c \in Rng(L.calls) : c.op = op /\ c.kind = k /\ c.seid = sd /\ c.id = i
+      removed(k, i) == \E o \in Rng(e.ops) : o.op = "remove" /\ o.kind = k /\ o.id = i
+      lostC(o) == o.op = "create" /\ ~called("create", o.kind, o.id)
+      lostU(o) == o.op = "update" /\ have(o.kind, o.id) /\ ~removed(o.kind, o.id) /\ ~called("update", o.kind, o.id)
+      lost == {o \in Rng(e.ops) : lostC(o) \/ lostU(o)}
+  IN IF ~ok THEN {} ELSE UNION {
+       V(\A o \in lost : o.kind \notin {"pdr", "far"}, "C02:a Create / Update PDR or FAR IE of an accepted request was not handed to the data plane"),
+       V(\A o \in lost : o.kind \notin {"qer", "urr", "bar"}, "C03:a Create / Update QER, URR or BAR IE of an accepted request was not handed to the data plane") }
+
 \* ------------------------------------------------------------------ C10 / C11 / C12: usage reports in responses and report requests
 VUsageRsp(g, L) ==   \* Modification / Deletion response of a live session
   LET e   == L.e
@@ -472,7 +491,7 @@ Verdict(g, L) ==
   ELSE UNION {
          VCalls(g, L), VTable(g, L), VBook(g, L),
          IF IsDup(g, e) THEN VDup(g, L)
-         ELSE IF IsReqEv(e) THEN VRsp(g, L) \cup (IF e.t \in {"mod", "del"} /\ e.seid \in LiveSeids(g) /\ Len(MyRsps(L)) = 1 THEN VUsageRsp(g, L) ELSE {})
+         ELSE IF IsReqEv(e) THEN VRsp(g, L) \cup VForward(g, L) \cup (IF e.t \in {"mod", "del"} /\ e.seid \in LiveSeids(g) /\ Len(MyRsps(L)) = 1 THEN VUsageRsp(g, L) ELSE {})
          ELSE IF e.t = "report" THEN VReport(g, L)
          ELSE IF IsRspEv(e) THEN VRspEv(g, L)
          ELSE IF e.t = "timeout" THEN VTimeout(g, L)
